@@ -5,6 +5,7 @@ import (
 	"errors"
 	"fmt"
 	"sort"
+	"strings"
 
 	"github.com/bufbuild/buf/private/buf/bufworkspace"
 	"github.com/bufbuild/buf/private/bufpkg/bufimage"
@@ -30,7 +31,16 @@ func (t Target) String() string {
 	return fmt.Sprintf("%s%d", t.Kind, t.Node)
 }
 
-func (t Target) filePath() string { return modDir(t.Node) + "/" + bPath(t.Node) }
+// filePath is the workspace path of the target file for the "file" and "path" targets.
+func (t Target) filePath(s Spec) string { return s.place(t.Node, bPath(t.Node)) }
+
+// dirPath is the input directory of the "dir" target.
+func (t Target) dirPath(s Spec) string {
+	if s.shared() {
+		return "proto"
+	}
+	return modDir(t.Node)
+}
 
 // workspace opens the workspace of b for target t through the same entry point the CLI uses.
 func (b *Built) workspace(ctx context.Context, t Target) (bufworkspace.Workspace, error) {
@@ -39,14 +49,14 @@ func (b *Built) workspace(ctx context.Context, t Target) (bufworkspace.Workspace
 	case "all":
 		return bufx.Workspace(ctx, bucket, ".", nil, nil, b.Providers)
 	case "dir":
-		return bufx.Workspace(ctx, bucket, modDir(t.Node), nil, nil, b.Providers)
+		return bufx.Workspace(ctx, bucket, t.dirPath(b.Spec), nil, nil, b.Providers)
 	case "file":
 		// as buffetch does for a ProtoFileRef: input dir = dir of the file, the file is the one target path
-		p := t.filePath()
-		return bufx.Workspace(ctx, bucket, modDir(t.Node)+"/"+fmt.Sprintf("p%d", t.Node), []string{p}, nil, b.Providers,
+		p := t.filePath(b.Spec)
+		return bufx.Workspace(ctx, bucket, p[:strings.LastIndex(p, "/")], []string{p}, nil, b.Providers,
 			bufworkspace.WithProtoFileTargetPath(p, false))
 	case "path":
-		return bufx.Workspace(ctx, bucket, ".", []string{t.filePath()}, nil, b.Providers)
+		return bufx.Workspace(ctx, bucket, ".", []string{t.filePath(b.Spec)}, nil, b.Providers)
 	}
 	return nil, fmt.Errorf("unknown target kind %q", t.Kind)
 }
@@ -196,4 +206,29 @@ func observeLsFiles(ctx context.Context, ws bufworkspace.Workspace) ([]RefFile, 
 	}
 	sort.Slice(out, func(i, j int) bool { return out[i].Path < out[j].Path })
 	return out, nil
+}
+
+// resolveIDs identifies the unnamed local modules of a shared-directory layout by their content
+// (the module that has p<i>/b.proto is node i) and returns the spec with their OpaqueIDs filled in.
+func resolveIDs(ctx context.Context, s Spec, ws bufmodule.ModuleSet) Spec {
+	if !s.shared() {
+		return s
+	}
+	s.ids = map[int]string{}
+	for _, m := range ws.Modules() {
+		if m.FullName() != nil {
+			continue
+		}
+		for i, k := range s.Kinds {
+			if k != KLocal {
+				continue
+			}
+			if _, err := m.StatFileInfo(ctx, bPath(i)); err == nil {
+				if _, dup := s.ids[i]; !dup {
+					s.ids[i] = m.OpaqueID()
+				}
+			}
+		}
+	}
+	return s
 }
